@@ -190,8 +190,9 @@ class _MeanDelays(object):
 def fastsir_case(draw):
     directed = draw(st.booleans())
     gc = draw(gen.graph_case(2, 7, labels=('int', 'str', 'tuple'), weighted=True, directed=directed, wpool=[0.5, 1.0, 2.0, 4.0, 0.25]))
-    gc['ew'] = {'w': [draw(st.sampled_from([0.5, 1.0, 2.0, 4.0, 0.25])) for _ in gc['edges']]}
-    gc['nw'] = {'rw': [draw(st.sampled_from([0.5, 1.0, 2.0, 4.0])) for _ in gc['nodes']]}
+    el, nl = draw(st.sampled_from(gen.ELABELS)), draw(st.sampled_from(gen.NLABELS))        # attribute names, incl. the falsy ''
+    gc['ew'] = {el: [draw(st.sampled_from([0.5, 1.0, 2.0, 4.0, 0.25])) for _ in gc['edges']]}
+    gc['nw'] = {nl: [draw(st.sampled_from([0.5, 1.0, 2.0, 4.0])) for _ in gc['nodes']]}
     I0, R0 = draw(gen.initial_sets(gc['nodes']))
     tmin = draw(st.sampled_from([0, 0, -1.5, 2]))
     mode = draw(st.sampled_from(['weighted', 'weighted', 'node-weighted-only+tau0', 'gamma0', 'edge-weighted-only']))
@@ -206,8 +207,8 @@ def fastsir_tables(case):
     nodes, adj = oracles.adjacency(gc)
     use_ew = case['mode'] in ('weighted', 'edge-weighted-only')
     use_nw = case['mode'] in ('weighted', 'node-weighted-only+tau0', 'gamma0')
-    ew = oracles.edge_weight_fn(gc, 'w' if use_ew else None)
-    nw = oracles.node_weight_fn(gc, 'rw' if use_nw else None)
+    ew = oracles.edge_weight_fn(gc, list(gc['ew'])[0] if use_ew else None)
+    nw = oracles.node_weight_fn(gc, list(gc['nw'])[0] if use_nw else None)
     dur = {}
     for u in nodes:
         r = case['gamma'] * nw(u)
@@ -228,9 +229,9 @@ def run_fastsir(case, full, budget):
     if case['R0']:
         kw['initial_recovereds'] = [oracles.tolabel(u) for u in case['R0']]
     if case['mode'] in ('weighted', 'edge-weighted-only'):
-        kw['transmission_weight'] = 'w'
+        kw['transmission_weight'] = list(case['gc']['ew'])[0]
     if case['mode'] in ('weighted', 'node-weighted-only+tau0', 'gamma0'):
-        kw['recovery_weight'] = 'rw'
+        kw['recovery_weight'] = list(case['gc']['nw'])[0]
     import random as _random
     if getattr(sim, 'random', None) is not _random:
         from ..runner import HarnessError
